@@ -192,6 +192,31 @@ func ParseCopySourceRange(size int64, acceptRange string) (int64, int64, error) 
 
 // ParseCopySource parses x-amz-copy-source header and returns source bucket,
 // source object, versionId, error respectively
+// IsOpaquePath reports whether a "/" separated bucket/object path can be
+// used as a filesystem path without being resolved to some other location:
+// it contains no ".", ".." or empty segment (a single trailing "/" is
+// allowed for directory objects).
+func IsOpaquePath(name string) bool {
+	segments := strings.Split(name, "/")
+	for i, seg := range segments {
+		switch seg {
+		case ".", "..":
+			return false
+		case "":
+			if i != len(segments)-1 {
+				return false
+			}
+		}
+	}
+	return true
+}
+
+// IsOpaqueId reports whether an id (version id, upload id, bucket name)
+// is a single path component that is not resolved by the filesystem.
+func IsOpaqueId(id string) bool {
+	return id != "." && id != ".." && !strings.Contains(id, "/")
+}
+
 func ParseCopySource(copySourceHeader string) (string, string, string, error) {
 	if copySourceHeader[0] == '/' {
 		copySourceHeader = copySourceHeader[1:]
@@ -208,6 +233,9 @@ func ParseCopySource(copySourceHeader string) (string, string, string, error) {
 
 	srcBucket, srcObject, ok := strings.Cut(copySource, "/")
 	if !ok {
+		return "", "", "", s3err.GetAPIError(s3err.ErrInvalidCopySource)
+	}
+	if !IsOpaquePath(copySource) || !IsOpaqueId(versionId) {
 		return "", "", "", s3err.GetAPIError(s3err.ErrInvalidCopySource)
 	}
 
